@@ -150,6 +150,7 @@ func cmdRun(args []string) int {
 	x.PanicsAreFailures = *panics
 	x.Known = loadKnown()
 	x.Budget = time.Duration(envInt("VX_BUDGET", 120)) * time.Second
+	x.MaxPaths = envInt("VX_MAXPATHS", 200000)
 	if *logq {
 		f, _ := os.Create("/tmp/vx-queries.smt2")
 		defer f.Close()
